@@ -53,6 +53,7 @@ REPS = {   # two representatives per shape
 def fcall(fn, *args): return {"e": "fcall", "fn": fn, "as": list(args)}
 def func(name, params, body): return {"name": name, "params": list(params), "body": body}
 def calln(fn, *args): return {"e": "calln", "fn": fn, "as": list(args)}
+def pipe(x, fn, *args, bare=False): return {"e": "pipe", "x": x, "fn": fn, "as": list(args), "bare": bare}
 def match_(x, cases): return {"e": "match", "x": x, "cases": [{"p": p, "hasg": g is not None, "g": g if g is not None else lit(vnull()), "b": b} for p, g, b in cases]}
 def plit(v): return {"k": "lit", "v": v, "n": "", "ps": [], "rest": "", "fs": []}
 def pvar(n): return {"k": "var", "v": vnull(), "n": n, "ps": [], "rest": "", "fs": []}
@@ -460,7 +461,7 @@ class Gen:
 
 def all_programs(tier, seed):
     rnd = random.Random(seed)
-    progs = operator_table() + precedence_table() + control_table() + optimizer_table() + match_table() + string_table() + status_table() + function_table() + special_numbers_table()
+    progs = operator_table() + precedence_table() + control_table() + optimizer_table() + match_table() + string_table() + status_table() + function_table() + special_numbers_table() + builtin_table()
     g = Gen(rnd)
     for _ in range(600 if tier == "quick" else 8000):
         progs.append(g.program())
@@ -798,6 +799,100 @@ def function_table():
     P([func("pick", ["v"], [ret(match_(var("v"), [(plit(vint(1)), None, S("one")), (pvar("n"), None, add(var("n"), I(1)))]))])], [ret(arr([fcall("pick", I(1)), fcall("pick", I(5))]))], ["match-in-function"])
     P([addf, fact], [ret(fcall("addf", fcall("fact", I(3)), fcall("fact", I(4))))], ["nested-calls"])
     P([addf], [decl("f", async_([ret(fcall("addf", I(1), I(2)))])), ret(await_(var("f")))], ["call-in-async-block"])
+    return out
+
+
+# ---- the documented builtins of section 10 not in the string table, keys(), and the pipe operator -----------------
+def builtin_table():
+    out = []
+    I = lambda n: lit(vint(n))
+    F = lambda x: lit(vfloat(x))
+    S = lambda x: lit(vstr(x))
+    N = lit(vnull())
+    P = lambda body, tags, vars_=(), funcs=(): out.append(prog("", body, vars_, ["builtins"] + tags, funcs))
+    strs = {"ascii": "hello world", "empty": "", "cjk": "日本語日本", "mixed": "a日b本c日", "rep": "aaaa"}
+    needles = ["", "h", "hello", "world", "o w", "l", "zz", "日", "本", "本c", "aa", "a", "hello world!", "日本語日本"]
+    for name, sv in strs.items():
+        for t in needles:
+            P([decl("s", S(sv)), ret(arr([calln("startsWith", var("s"), S(t)), calln("endsWith", var("s"), S(t)), calln("indexOf", var("s"), S(t))]))], ["prefix-suffix-index", name, "t=" + repr(t)])
+            if t:
+                P([decl("s", S(sv)), ret(calln("replace", var("s"), S(t), S("<>")))], ["replace", name, "t=" + repr(t)])
+        P([decl("s", S(sv)), ret(calln("replace", var("s"), S("a"), S("")))], ["replace", name, "delete"])
+        P([decl("s", S(sv)), ret(calln("replace", var("s"), S("a"), S("aa")))], ["replace", name, "grow"])
+        for i in (-1, 0, 1, len(sv) - 1, len(sv), len(sv) + 1):
+            P([decl("s", S(sv)), ret(calln("charAt", var("s"), I(i)))], ["charAt", name, str(i)])
+    P([ret(calln("charAt", S("abc"), lit(vbig(2 ** 53))))], ["charAt", "big-index"])
+    P([ret(calln("charAt", S("abc"), var("i")))], ["charAt", "index-from-input"], [("i", vint(2))])
+    nums = [I(3), I(7), I(-2), I(0), F(3.0), F(7.5), F(-2.25), F(0.0)]
+    for a in nums:
+        for b in nums:
+            P([ret(arr([calln("min", a, b), calln("max", a, b)]))] if a["v"]["k"] == b["v"]["k"] else [ret(calln("min", a, b))],
+              ["min-max", "%s-%s" % (a["v"]["k"], b["v"]["k"]), "%s,%s" % (a["v"].get("v", a["v"].get("q")), b["v"].get("v", b["v"].get("q")))])
+            if a["v"]["k"] != b["v"]["k"]:
+                P([ret(calln("max", a, b))], ["min-max", "%s-%s" % (a["v"]["k"], b["v"]["k"]), "max", "%s,%s" % (a["v"].get("v", a["v"].get("q")), b["v"].get("v", b["v"].get("q")))])
+    P([ret(calln("min", var("x"), F(1.0)))], ["min-max", "nan"], [("x", vnan())])
+    for sv in ("42", "-17", "+5", "0", "007", "  12  ", "\t9\n", "", " ", "abc", "12abc", "1.5", "1e3", "0x10", "--5", "+-5", "5-", "1 2", "999999", "1234567", "9223372036854775808", "-", "+", "1_000", "٤٢"):
+        P([ret(calln("parseInt", S(sv)))], ["parseInt", repr(sv)])
+    P([ret(bin_("+", calln("parseInt", var("q")), I(1)))], ["parseInt", "from-input"], [("q", vstr("41"))])
+    for sv in ("3.5", "-0.25", "+2.75", "10", "0", "0.0", ".5", "5.", "-.5", "  1.5  ", "1.50", "1.500", "0.250", "3.14", "0.1", "", ".", "-", "abc", "1.2.3", "1..2", "1,5", "1 .5", "1e3", "1E-2", "inf", "-Inf", "nan", "NaN", "Infinity", "0x1p-2", "1_0.5", "12345.5", "123456.5", "0.12345"):
+        P([ret(calln("parseFloat", S(sv)))], ["parseFloat", repr(sv)])
+    P([ret(bin_("*", calln("parseFloat", var("q")), I(2)))], ["parseFloat", "from-input"], [("q", vstr("2.25"))])
+    for name, v in (("int", I(42)), ("negative", I(-7)), ("zero", I(0)), ("string", S("a b")), ("empty-string", S("")), ("true", lit(vbool(True))), ("false", lit(vbool(False))), ("null", N),
+                    ("float", F(3.5)), ("float-whole", F(3.0)), ("float-negative", F(-0.25)), ("float-zero", F(0.0)), ("big", lit(vbig(2 ** 53 + 1))), ("array", arr([I(1), I(2)])), ("object", obj([("a", I(1))])),
+                    ("sum", bin_("+", I(40), I(2))), ("division", bin_("/", F(7.0), I(2)))):
+        P([ret(calln("toString", v))], ["toString", name])
+        P([ret(bin_("+", S("v="), calln("toString", v)))], ["toString", name, "concatenated"])
+    P([ret(calln("toString", var("x")))], ["toString", "nan"], [("x", vnan())])
+    P([ret(calln("parseInt", calln("toString", I(123))))], ["toString", "round-trip-int"])
+    P([ret(calln("parseFloat", calln("toString", F(2.5))))], ["toString", "round-trip-float"])
+    # keys(): ascending, the same every time
+    for ks in (["b", "a", "c"], ["y", "x", "n", "k2", "k1", "c", "b", "a"], ["a"], []):
+        P([decl("o", obj([(k, I(i)) for i, k in enumerate(ks)])), ret(calln("keys", var("o")))], ["keys", "literal", str(len(ks))])
+        P([decl("o", obj([(k, I(i)) for i, k in enumerate(ks)])), decl("s", S("")), for_(None, "k", calln("keys", var("o")), [set_("s", bin_("+", var("s"), var("k")))]), ret(var("s"))], ["keys", "iterated", str(len(ks))])
+    P([ret(call("length", calln("keys", obj([("a", I(1)), ("b", I(2))]))))], ["keys", "count"])
+    # wrong types and arities
+    goods = (("startsWith", [S("ab"), S("a")]), ("endsWith", [S("ab"), S("b")]), ("indexOf", [S("ab"), S("b")]), ("charAt", [S("ab"), I(0)]), ("replace", [S("ab"), S("a"), S("c")]),
+             ("min", [I(1), I(2)]), ("max", [I(1), I(2)]), ("parseInt", [S("1")]), ("parseFloat", [S("1.5")]), ("keys", [obj([("a", I(1))])]))
+    for fn, good in goods:
+        bads = [I(1), N, arr([I(1)]), obj([("a", I(1))]), lit(vbool(True)), F(1.5), S("s")]
+        for pos in range(len(good)):
+            for bad in bads:
+                goodk = good[pos]["v"]["k"] if good[pos]["e"] == "lit" else "obj"
+                badk = bad["v"]["k"] if bad["e"] == "lit" else {"arr": "arr", "obj": "obj"}[bad["e"]]
+                if badk == goodk:
+                    continue
+                args = list(good)
+                args[pos] = bad
+                P([ret(calln(fn, *args))], ["bad-argument", fn, "arg%d" % pos, badk])
+        P([ret(calln(fn, *good[:-1]))], ["arity", fn, "one-less"])
+        P([ret(calln(fn, *(good + [S("x")])))], ["arity", fn, "one-more"])
+    P([ret(calln("toString"))], ["arity", "toString", "one-less"])
+    P([ret(calln("toString", I(1), I(2)))], ["arity", "toString", "one-more"])
+    # an argument that fails: the call fails, nothing after it runs
+    P([decl("x", I(0)), decl("r", calln("min", bin_("/", I(1), var("x")), I(2))), ret(S("reached"))], ["argument-fails", "min"])
+    # the pipe operator: x |> f is f(x), x |> f(a) is f(x, a); it binds weaker than every binary operator, chains to the left
+    dbl = func("dbl", ["a"], [ret(bin_("*", var("a"), I(2)))])
+    addf = func("addf", ["a", "b"], [ret(bin_("+", var("a"), var("b")))])
+    sub = func("sub", ["a", "b"], [ret(bin_("-", var("a"), var("b")))])
+    Q = lambda body, tags, vars_=(), funcs=(dbl, addf, sub): out.append(prog("", body, vars_, ["pipe"] + tags, list(funcs)))
+    Q([ret(pipe(I(5), "dbl", bare=True))], ["bare"])
+    Q([ret(pipe(I(5), "dbl"))], ["call-no-arguments"])
+    Q([ret(pipe(I(5), "addf", I(1)))], ["extra-argument"])
+    Q([ret(pipe(I(5), "sub", I(1)))], ["piped-value-is-the-first-argument"])
+    Q([ret(pipe(pipe(I(5), "dbl", bare=True), "addf", I(1)))], ["chain"])
+    Q([ret(pipe(pipe(pipe(I(1), "addf", I(2)), "dbl", bare=True), "sub", I(10)))], ["chain", "three"])
+    Q([ret(pipe(bin_("+", I(1), I(2)), "dbl", bare=True))], ["binds-weaker-than-plus"])
+    Q([ret(pipe(bin_("==", I(1), I(2)), "dbl", bare=True))], ["binds-weaker-than-comparison", "body-fails"])
+    Q([ret(pipe(bin_("||", lit(vbool(False)), lit(vbool(True))), "addf", S("x")))], ["binds-weaker-than-or", "body-fails"])
+    Q([ret(bin_("+", pipe(I(5), "dbl", bare=True), I(1)))], ["parenthesised-operand"])
+    Q([decl("x", I(4)), decl("y", pipe(var("x"), "addf", var("x"))), ret(arr([var("x"), var("y")]))], ["variables"])
+    Q([ret(pipe(bin_("/", I(1), I(0)), "dbl", bare=True))], ["left-fails"])
+    Q([ret(pipe(I(1), "addf", bin_("/", I(1), I(0))))], ["argument-fails"])
+    Q([ret(pipe(I(1), "nosuch", bare=True))], ["undefined-function"])
+    Q([ret(pipe(I(1), "addf", I(2), I(3)))], ["too-many-arguments"])
+    Q([ret(pipe(I(1), "addf", bare=True))], ["missing-argument-is-null", "body-fails"])
+    Q([ret(pipe(arr([I(1), I(2)]), "addf", arr([I(3)])))], ["arrays"])
+    Q([ret(pipe(var("q"), "dbl", bare=True))], ["from-input"], [("q", vint(21))])
     return out
 
 
